@@ -6,5 +6,5 @@ cd /repo || exit 2
 if ! git diff --quiet; then echo "repo dirty, refusing"; exit 2; fi
 git apply "$patch" || { echo "patch does not apply"; exit 2; }
 trap 'git -C /repo checkout -- . ; git -C /repo clean -fdq -- . 2>/dev/null' EXIT
-cd /verif && VERIF_REPLAYS_DIR=/verif/.build/mut-replays ./run "$id" "$tier" 2>&1 | cut -c1-500
+cd /verif && VERIF_REPLAYS_DIR=/verif/.build/mut-replays VERIF_EVIDENCE_DIR=/verif/.build/mut-evidence ./run "$id" "$tier" 2>&1 | cut -c1-500
 echo "rc=${PIPESTATUS[0]}"
